@@ -7,6 +7,11 @@ open KV.TL KV.DS
 /-- all implementation rows of all five libraries -/
 def cells : List Cell := Gen.techChunks.flatten
 
+/-- the keys of `TechLib.cells` of library `l` (index in `Gen.libNames`) that the generated table lists, in table order -/
+def libKeys (l : Nat) : List Str := (cells.filter (·.lib == l)).flatMap (·.names)
+/-- the implementation rows of library `l` -/
+def libRows (l : Nat) : List Cell := cells.filter (·.lib == l)
+
 theorem chunks_eq : Gen.techChunks = [Gen.techChunk0, Gen.techChunk1, Gen.techChunk2, Gen.techChunk3,
     Gen.techChunk4, Gen.techChunk5, Gen.techChunk6, Gen.techChunk7] := rfl
 
